@@ -47,6 +47,10 @@ def main():
                 mod.attach(ctx, shard)
             try:
                 mod.run(shard, ctx)
+                if shard.get("after_history"):
+                    from rv import history
+                    history.stir(ctx)
+                    mod.run(shard, ctx)
             except Exception as e:
                 # an exception raised *inside the library* by a call the workload makes as an ordinary,
                 # documented use (building a chord it will then inspect, ...) is an observation about
